@@ -199,12 +199,23 @@ def fold(s, dfrac=None):
 
 
 # ---- build + read back ------------------------------------------------------------------
-def build(s, wavelength=0.55):
+def build(s, wavelength=0.55, retarget=False):
+    """retarget: every glass surface is entered with another index, conic and thickness and then
+    re-targeted to the configuration through set_index / set_conic / set_thickness - the same
+    prescription, reached by edits instead of by construction."""
     from optiland.optic import Optic
     from optiland.materials import IdealMaterial
     o = Optic()
     o.add_surface(index=0, thickness=s["obj"])
+    later = []
     for j, x in enumerate(s["surfs"], 1):
+        glass = not isinstance(x["mat"], str)
+        if retarget and glass:
+            curved = math.isfinite(x["R"])
+            o.add_surface(index=j, radius=x["R"], conic=(x["k"] - 0.25) if curved else x["k"], thickness=x["t"] + 1.0,
+                          material=IdealMaterial(n=float(x["mat"]) + 0.125), is_stop=(j == s["stop"]))
+            later.append((j, x, curved))
+            continue
         mat = x["mat"] if isinstance(x["mat"], str) else IdealMaterial(n=float(x["mat"]))
         o.add_surface(index=j, radius=x["R"], conic=x["k"], thickness=x["t"], material=mat, is_stop=(j == s["stop"]))
     # an image inside glass: the image surface carries that medium (left at its default, air, the
@@ -214,6 +225,11 @@ def build(s, wavelength=0.55):
         o.add_surface(index=len(s["surfs"]) + 1)
     else:
         o.add_surface(index=len(s["surfs"]) + 1, material=IdealMaterial(n=float(last)))
+    for j, x, curved in later:
+        o.set_index(float(x["mat"]), j)
+        if curved:
+            o.set_conic(x["k"], j)
+        o.set_thickness(x["t"], j)
     o.set_aperture(*s["ap"])
     if math.isfinite(s["obj"]):
         o.set_field_type("object_height")
